@@ -284,6 +284,72 @@ def run_cyclic(rng, counters, digests, samples, violations):
         samples.append({"cyclic_ops": [(k, str(x), str(y), str(z)) for k, x, y, z in ops][:8]})
 
 
+class NumBox:
+    def total(self, c):
+        """Sum of the numeric leaves of a (nested) container; strings (selectors) are skipped."""
+        if isinstance(c, dict):
+            return sum(self.total(v) for v in c.values())
+        if isinstance(c, (list, tuple)):
+            return sum(self.total(v) for v in c)
+        return c if isinstance(c, (int, float)) and not isinstance(c, bool) else 0
+
+
+def computed_key_target_case(rng, counters, violations):
+    """Nested targets addressed through a COMPUTED key whose holder lives in the written container itself or in an
+    enclosing one (a selector kept next to the slots it selects), plus tasks reading those containers as a whole.
+    The oracle is the true data flow of this fixed graph (not the relation the manager declares)."""
+    import xdeps
+    C.reset()
+    m = xdeps.Manager()
+    where = rng.choice(["same", "enclosing", "elsewhere"])
+    d = {"box": {"sel": "p", "inner": {"p": 1.0, "q": 2.0, "sel": "q"}}, "sel": "p", "k": 1.5, "k2": -2.0,
+         "tot_inner": 0.0, "tot_box": 0.0, "after": 0.0, "other": 0.0}
+    x = m.ref(d, "x")
+    f = m.ref(NumBox(), "f")
+    key = {"same": x["box"]["inner"]["sel"], "enclosing": x["box"]["sel"], "elsewhere": x["sel"]}[where]
+    slot = {"same": "q", "enclosing": "p", "elsewhere": "p"}[where]
+    defs = [
+        ("W", lambda: m.set_value(x["box"]["inner"][key], x["k"] * 2)),
+        ("R_inner", lambda: m.set_value(x["tot_inner"], f.total(x["box"]["inner"]))),
+        ("R_box", lambda: m.set_value(x["tot_box"], f.total(x["box"]) + 1)),
+        ("R_after", lambda: m.set_value(x["after"], x["tot_inner"] * 10 + x["tot_box"])),
+        ("other", lambda: m.set_value(x["other"], x["k2"] + 1)),
+    ]
+    rng.shuffle(defs)
+    for _, mk in defs:
+        mk()
+    wit = {"case": "computed-key target, key holder %s, definition order %s" % (where, [n for n, _ in defs])}
+    names = {str(x["box"]["inner"][key]): "W", "x['tot_inner']": "R_inner", "x['tot_box']": "R_box", "x['after']": "R_after", "x['other']": "other"}
+    for val in (5.0, -1.25, 0.5):
+        del C.EVENTS[:]
+        mgrmon.set_shuffle_rng(random.Random(rng.random()))
+        try:
+            m.set_value(x["k"], val)
+        except Exception as exc:
+            violations.append(dict(wit, what="C02 %s: assignment raised %s: %s" % (wit["case"], type(exc).__name__, str(exc)[:200])))
+            return
+        runs = [names.get(str(e[1]), str(e[1])) for e in C.EVENTS if e[0] == "run"]
+        counters["computed_key_target_windows"] = counters.get("computed_key_target_windows", 0) + 1
+        problems = []
+        if sorted(runs) != ["R_after", "R_box", "R_inner", "W"]:
+            problems.append("tasks run %s, the tasks downstream of x['k'] are W, R_inner, R_box, R_after (each once)" % runs)
+        else:
+            pos = {n: i for i, n in enumerate(runs)}
+            if not (pos["W"] < pos["R_inner"] < pos["R_after"] and pos["W"] < pos["R_box"] < pos["R_after"]):
+                problems.append("order %s: a consumer ran before its producer" % runs)
+        inner = dict(d["box"]["inner"])
+        want_inner = {"p": 1.0, "q": 2.0}
+        want_inner[slot] = val * 2
+        ti = want_inner["p"] + want_inner["q"]
+        want = {"tot_inner": ti, "tot_box": ti + 1, "after": ti * 10 + ti + 1}
+        got = {k: d[k] for k in want}
+        if {k: inner[k] for k in ("p", "q")} != want_inner or got != want:
+            problems.append("values %s / %s, expected %s / %s" % ({k: inner[k] for k in ("p", "q")}, got, want_inner, want))
+        if problems:
+            violations.append(dict(wit, what="C02 %s, x['k'] = %r: %s" % (wit["case"], val, "; ".join(problems))))
+            return
+
+
 def run_shard(spec):
     rng = random.Random("C02:%s:%s" % (spec["seed"], spec["shard"]))
     mgrmon.install_reach_counters()
@@ -309,6 +375,10 @@ def run_shard(spec):
             if f:
                 violations.append({"what": "replayed: %s" % (f,), "world": wit["world"], "ops": wit["ops"]})
         return {"evaluations": 1, "digests": [], "samples": [], "counters": counters, "violations": violations, "known": known}
+    for h in range(40 if not spec.get("replay") else 0):
+        if violations:
+            break
+        computed_key_target_case(rng, counters, violations)
     for h in range(spec.get("histories", 0)):
         layered = rng.random() < 0.7
         run_history(rng, counters, digests, samples, violations, known, layered, rng.randrange(8, 30))
